@@ -1,5 +1,9 @@
 pub mod c01;
 pub mod c11;
+pub mod c13;
+pub mod c14;
+pub mod c18;
+pub mod c19;
 
 use crate::report::Ctx;
 
@@ -7,6 +11,10 @@ pub fn run(ctx: &mut Ctx) -> bool {
     match ctx.prop.as_str() {
         "C01" => c01::run(ctx),
         "C11" => c11::run(ctx),
+        "C13" => c13::run(ctx),
+        "C14" => c14::run(ctx),
+        "C18" => c18::run(ctx),
+        "C19" => c19::run(ctx),
         _ => return false,
     }
     true
